@@ -86,7 +86,7 @@ def run_worker(prop, tier, seed, shard, nshards, out, budget, hard, replay=None)
 
 def merge(results):
     m = {'evaluations': 0, 'nontrivial': set(), 'counters': {}, 'seen': {}, 'samples': [],
-         'violations': {}, 'inconclusive': [], 'notes': [], 'shards_ok': 0, 'shards': len(results)}
+         'violations': {}, 'inconclusive': [], 'undecided': [], 'notes': [], 'shards_ok': 0, 'shards': len(results)}
     for r in results:
         res = r['result']
         if res is None:
@@ -115,6 +115,9 @@ def merge(results):
         for n in res.get('notes', []):
             if len(m['notes']) < 10:
                 m['notes'].append(n)
+        for u in res.get('undecided', []):
+            if len(m['undecided']) < 30:
+                m['undecided'].append(u)
     return m
 
 
@@ -225,6 +228,9 @@ def main(argv=None):
             viol_lines.append((k, v, path))
 
         min_nt = mod.MIN_NONTRIVIAL[tier] if hasattr(mod, 'MIN_NONTRIVIAL') else 2
+        n_und = m['counters'].get('undecided_cases', 0)
+        if n_und > max(3, 0.05 * (m['evaluations'] + n_und)):
+            m['inconclusive'].append('%d of %d cases could not be decided, e.g. %s' % (n_und, m['evaluations'] + n_und, '; '.join(m['undecided'][:2])[:600]))
         if new:
             verdict = 'violated'
         elif m['inconclusive']:
@@ -256,6 +262,8 @@ def main(argv=None):
             print('   note: %s' % n[:2000])
         for r in m['inconclusive'][:5]:
             print('   inconclusive-reason: %s' % r[:1200])
+        for r in m['undecided'][:5]:
+            print('   undecided-case: %s' % r[:600])
 
         # ---- evidence -------------------------------------------------------
         if not args.no_evidence:
@@ -277,6 +285,7 @@ def main(argv=None):
                     'known_finding_hits': known_hits,
                     'new_violation_keys': sorted(new),
                     'inconclusive_reasons': m['inconclusive'][:10],
+                    'undecided_cases': {'count': m['counters'].get('undecided_cases', 0), 'examples': m['undecided'][:10]},
                 },
                 'assumptions': list(getattr(mod, 'ASSUMPTIONS', [])),
                 'wall_s': wall,
